@@ -152,6 +152,9 @@ def evaluate(w, files, annotate, part, origin, wp=None):
     else:
         part.count('accepted')
         part.held(('ok', origin.split(':')[0], min(t // 20, 10)))
+    if t > 8 and part.evaluations % 97 == 0:
+        part.sample({'origin': origin, 'annotate': annotate, 'files': [[p, s_[:240]] for p, s_ in files][:2], 'verdict': k,
+                     'stage': stage, 'first_diagnostic': (r.get('errs') or [''])[0][:160], 'steps': tot, 'budget': budget})
     ratio = tot / budget
     part.cov['max-step-ratio-x1e6'] = max(part.cov.get('max-step-ratio-x1e6', 0), int(ratio * 1e6))
     if tot and ratio > part.cov.get('_maxr', 0):
